@@ -345,6 +345,8 @@ def c10(run, replay=None):
                 run.violation("spelling-dependent: `prog %s`: %r gives %s but the equivalent spelling %r gives %s" %
                               (r["usage"], base[0], json.dumps(base[1])[:200], av, json.dumps(io)[:200]),
                               dict(replay_of(r), spelling_a=base[0], out_a=base[1], spelling_b=av, out_b=io))
+    tchecked, tdist = tail_correspondence(run, [r for r in recs if r["with_opts"]], 4000 if run.tier == "quick" else 60000)
+    run.coverage.update(normalize_and_tail_mirror_cases=tchecked)
     base_cov(run, recs, nus, nresp,
              "accepted pairs of the C07 enumeration that carry options (outside the known usage classes), each re-spelled in every documented way "
              "(short/long, -oV / -o V / -o=V / --out=V / --out V, stacked short flags); non-trivial = re-spelled argument vectors whose Coq canonicalisation equals the original's; "
@@ -400,6 +402,22 @@ def tail_correspondence(run, recs, cap):
                          ["argv"] + [hx(a) for a in argvn], ["usages"] + [hx(u) for u in o["usages"]]]))
         idx.append(i)
     mouts = C.run_oracle(lines)
+    # the mirror of Options::normalize_options must give the normalised argv the code computed
+    nlines = []
+    for i in idx:
+        argvn, opts = touts[i]["tail"]
+        nlines.append(sx(["normopts", ["opts"] + [[k, hx(s_) if s_ is not None else "none", hx(l) if l is not None else "none", hx(d) if d is not None else "none"] for k, s_, l, d in opts],
+                          ["argv"] + [hx(a) for a in sel[i]["argv"]]]))
+    nouts = C.run_oracle(nlines)
+    for i, no in zip(idx, nouts):
+        e = parse_sx(no)
+        got = touts[i]["tail"][0]
+        want = None if isinstance(e, str) else [unhx(a).decode("utf-8", "replace") for a in e[1:]]
+        if want != got:
+            r = sel[i]
+            run.violation("normalize-mirror: `prog %s` with %r: the mirror of normalize_options gives %r, the implementation %r" % (r["usage"], r["argv"], want, got),
+                          dict(replay_of(r), model=want, implementation=got), no_input=True)
+            break
     checked = 0
     dist = {}
     for i, mo in zip(idx, mouts):
